@@ -1133,6 +1133,116 @@ func sMainSendsBuffered(c *Ctx, rule string) {
 }
 
 
+// S-ASYNC: asyncNotifyCh is a non-blocking send – an edge-triggered wake-up
+// that is only kept for a receiver who is not waiting right now if the channel
+// has room for it. Every channel handed to asyncNotifyCh (stepDown, commitCh,
+// triggerCh, notifyCh, the follower/leader notify channels) is therefore
+// created with capacity >= 1; unbuffered, a step-down request or a commit
+// notification raised while the main loop is busy is silently dropped.
+func chanCreatedRoomy(c *Ctx, v ssa.Value, depth int) (bool, string) {
+	roomy := func(d string) bool {
+		if !strings.HasPrefix(d, "make(chan ") {
+			return false
+		}
+		i := strings.LastIndex(d, ", ")
+		if i < 0 {
+			return false
+		}
+		sz := strings.TrimSuffix(d[i+2:], ")")
+		if strings.HasPrefix(sz, "len(") {
+			return true
+		}
+		var n int64
+		_, err := fmt.Sscanf(sz, "%d", &n)
+		return err == nil && n >= 1
+	}
+	d := c.P.D(v)
+	if roomy(d) {
+		return true, d
+	}
+	if depth <= 0 {
+		return false, d + " (origin not resolved)"
+	}
+	if f := engine.ChanField(v); f != nil {
+		ws := c.P.FieldWrites(f)
+		if len(ws) == 0 {
+			return false, d + " is never assigned"
+		}
+		var ds []string
+		all := true
+		for _, w := range ws {
+			sv, _ := c.P.StoredValue(w.Instr, f)
+			if sv == nil {
+				all = false
+				continue
+			}
+			if c.P.D(sv) == "nil" {
+				ds = append(ds, "nil")
+				continue
+			}
+			ok, fd := chanCreatedRoomy(c, sv, depth-1)
+			ds = append(ds, fd)
+			all = all && ok
+		}
+		return all, d + " created as " + strings.Join(ds, " | ")
+	}
+	if par, ok := v.(*ssa.Parameter); ok && par.Parent() != nil {
+		fn := par.Parent()
+		idx := -1
+		for i, q := range fn.Params {
+			if q == par {
+				idx = i
+			}
+		}
+		if fn.Signature.Recv() != nil {
+			idx--
+		}
+		callers := c.P.CallsEverywhere(engine.Is(c.P.Name(fn)))
+		if idx < 0 || len(callers) == 0 {
+			return false, d + " (parameter without resolvable callers)"
+		}
+		var ds []string
+		all := true
+		for _, s := range callers {
+			av := engine.ArgValue(s.Instr, idx)
+			if av == nil {
+				all = false
+				continue
+			}
+			ok, fd := chanCreatedRoomy(c, av, depth-1)
+			ds = append(ds, fd)
+			all = all && ok
+		}
+		return all, d + " ← " + strings.Join(ds, " | ")
+	}
+	return false, d + " (origin not resolved)"
+}
+
+func sAsyncNotifyBuffered(c *Ctx, rule string) {
+	sites := c.P.CallsEverywhere(engine.Is("asyncNotifyCh"))
+	for _, s := range sites {
+		v := engine.ArgValue(s.Instr, 0)
+		ok, found := chanCreatedRoomy(c, v, 3)
+		c.Check(rule, "asyncNotifyCh("+c.P.D(v)+") in "+c.P.Name(s.Fn), c.P.InstrPos(s.Instr), "a channel notified with a non-blocking send is created with capacity >= 1 (otherwise the wake-up is lost whenever the receiver is busy)", ok, found, 1)
+	}
+	if len(sites) < 6 {
+		c.Bad(rule, "asyncNotifyCh:sites", "-", "the known call sites (stepDown, commitCh, triggerCh, notifyCh, …)", fmt.Sprintf("%d found", len(sites)))
+	}
+	// asyncNotifyCh itself: select { case ch <- struct{}{}: default: }
+	if fn := c.Fn(rule, "asyncNotifyCh"); fn != nil {
+		n := 0
+		engine.EachInstr(fn, func(in ssa.Instruction) {
+			if sel, ok := in.(*ssa.Select); ok {
+				n++
+				c.Check(rule, "asyncNotifyCh:shape", c.P.InstrPos(in), "one non-blocking select with a single send on the argument", !sel.Blocking && len(sel.States) == 1 && sel.States[0].Dir == types.SendOnly && c.P.D(sel.States[0].Chan) == "p1", "select", 1)
+			}
+		})
+		if n != 1 {
+			c.Bad(rule, "asyncNotifyCh:shape", c.P.Pos(fn.Pos()), "one select", fmt.Sprintf("%d", n))
+		}
+	}
+}
+
 // S-DISPATCH: Raft.processRPC hands every recognised command to its handler,
 // unconditionally: after the header check, a matched type-switch case calls
 // the handler and nothing else answers the RPC. The "unexpected command"
